@@ -161,7 +161,12 @@ def step (d : DSt) (fs : List String) : DSt × String :=
     | some p, some g, some g2 => ({ d with st := { d.st with store := { p := p, g := g, g2 := g2 } } }, "model=-#~#~")
     | _, _, _ => (d, "bad-op")
   | "op" :: rest =>
-    match parseOp rest with
+    -- read-fed calls: the batch argument is what a read of the current state returns (value semantics: a composition)
+    let op? : Option Op := match rest with
+      | ["removeread", sec] => (secOf sec).map fun sc => .removeMany sc (d.st.pol.get sc)
+      | ["updateread", tag] => some (.updateMany d.st.pol.p (d.st.pol.p.map fun r => r.dropLast ++ [r.getLast?.getD "" ++ tag]))
+      | _ => parseOp rest
+    match op? with
     | none => (d, "bad-op")
     | some op =>
       let (s', r) := Casbin.Enf.step d.cfg d.st op
